@@ -28,4 +28,22 @@ theorem src_status_known :
     ∧ Src.statusFromTaskmap "deleted" = .deleted ∧ Src.statusFromTaskmap "recurring" = .recurring := by
   refine ⟨?_, ?_, ?_, ?_⟩ <;> simp [Src.statusFromTaskmap]
 
+/-- a stored status string is read as one of the four known statuses exactly when it is that status's
+    name — the model keeps statuses as strings and compares with these names -/
+theorem src_status_iff (s : String) :
+    (Src.statusFromTaskmap s = .pending ↔ s = "pending")
+    ∧ (Src.statusFromTaskmap s = .recurring ↔ s = "recurring")
+    ∧ (Src.statusFromTaskmap s = .deleted ↔ s = "deleted")
+    ∧ (Src.statusFromTaskmap s = .completed ↔ s = "completed") := by
+  unfold Src.statusFromTaskmap
+  by_cases h1 : s = "pending"
+  · subst h1; simp
+  · by_cases h2 : s = "completed"
+    · subst h2; simp
+    · by_cases h3 : s = "deleted"
+      · subst h3; simp
+      · by_cases h4 : s = "recurring"
+        · subst h4; simp
+        · simp [h1, h2, h3, h4]
+
 end Tc
